@@ -73,7 +73,7 @@ def str_cases(draw, tier):
     codes = draw(st.lists(st.lists(st.integers(0, 7), min_size=S, max_size=S), min_size=k, max_size=k))
     sel = draw(st.lists(st.integers(0, 4), min_size=k * S, max_size=k * S))
     aslist = draw(st.lists(st.booleans(), min_size=k, max_size=k))
-    delim = draw(st.sampled_from(['\n', ',', ' ', ';']))
+    delim = draw(st.sampled_from(['\n', ',', ' ', ';', ', ', '\r\n', ' | ', '::']))      # mv_str(delim=...) takes any string
     return dict(codes=codes, sel=sel, aslist=aslist, delim=delim)
 
 
@@ -133,6 +133,7 @@ def prop_str(case):
                 raise Violation(f'{name}{tuple(vecs)!r} after an in-place edit of the array an earlier equal call returned: {again.tolist()}, '
                                 f'expected {keep.tolist()}')
             labels.append('reparse_after_edit')
+    if len(case['delim']) > 1: labels.append('multi_char_delim')
     return Obs(alias_used or k % 8 != 0, labels)
 
 
